@@ -1786,6 +1786,12 @@ class GroupBy:
                 )
 
         if index_by_groups:
+            if times is not None and len(times) != len(self):
+                # the positional re-ordering below would hide a wrong length from ema_grouped
+                raise ValueError(
+                    "group_key, values, times must have equal length. "
+                    f"Got lengths: {dict(group_key=len(self), times=len(times))}"
+                )
             indexer = self._group_sort_indexer
             result_index = self._build_group_sorted_index(common_index)
             group_counts = self.ikey_count[self._labels_argsort]
